@@ -127,6 +127,11 @@ let dispatch (op : string) (x : v) : v =
   | "convert", [fa; ka; fb; kb; nu; d; xs] ->
       let fam (x : v) : M.family = match x with S "Fnu" -> M.Fnu | S "Fint" -> M.Fint | S "Lum" -> M.Lum | _ -> raise (Bad "family") in
       of_list (fun x -> of_q (M.convert (fam fa) (to_q ka) (fam fb) (to_q kb) (to_q nu) (to_q d) (to_q x))) (args xs)
+  | "convert_u", [ua; ub; nu; d; xs] ->
+      let unitd (x : v) : M.unitd = match x with
+        | L [sc; kg; m; s; o] -> { M.u_scale = to_q sc; M.u_kg = to_z kg; M.u_mt = to_z m; M.u_s = to_z s; M.u_other = to_z o }
+        | _ -> raise (Bad "unit descriptor") in
+      of_list (fun x -> of_opt of_q (M.convert_u (unitd ua) (unitd ub) (to_q nu) (to_q d) (to_q x))) (args xs)
   | "interp_var", [filt; amin; amax; cols] ->
       of_opt (of_list of_q)
         (M.sed_interp_var_m lg pw (to_list to_pt filt) (to_q amin) (to_q amax) (to_list (to_pair to_q (to_list to_pt)) cols))
